@@ -5,9 +5,9 @@ with the reason given."""
 import json, subprocess
 
 READY = {
-    "C01": False, "C02": True, "C03": False, "C04": False, "C05": False, "C06": False, "C07": True,
-    "C08": True, "C09": False, "C10": False, "C11": False, "C12": False, "C13": False, "C14": False,
-    "C15": True, "C16": False, "C17": False, "C18": False, "C19": True, "C20": False,
+    "C01": False, "C02": True, "C03": False, "C04": False, "C05": True, "C06": True, "C07": True,
+    "C08": True, "C09": True, "C10": True, "C11": True, "C12": False, "C13": False, "C14": False,
+    "C15": True, "C16": True, "C17": True, "C18": False, "C19": True, "C20": False,
 }
 NOT_READY_REASON = "check under construction in this session (claimed once its monitor is silent on the unchanged tree)"
 
